@@ -1,0 +1,89 @@
+//go:build verif
+
+// Package verifhook holds observation / scheduling / fault-injection points used by the
+// external verification harness. This is the `verif` build: events go to a settable sink under
+// one mutex (so they carry a total order), yields and faults call settable functions.
+package verifhook
+
+import (
+	"sync"
+	"sync/atomic"
+)
+
+// Enabled reports whether the hooks are compiled in.
+const Enabled = true
+
+// Event is one observation.
+type Event struct {
+	Seq  uint64
+	Kind string
+	Args []string
+}
+
+type (
+	SinkFunc  func(Event)
+	YieldFunc func(point string, args []string)
+	FaultFunc func(point string, args []string) error
+)
+
+var (
+	mu      sync.Mutex
+	seq     uint64
+	sink    SinkFunc
+	yieldFn atomic.Pointer[YieldFunc]
+	faultFn atomic.Pointer[FaultFunc]
+)
+
+// SetSink installs the event sink (nil removes it). The sink is called with the package mutex
+// held and must not call Emit.
+func SetSink(fn SinkFunc) {
+	mu.Lock()
+	defer mu.Unlock()
+	sink = fn
+}
+
+// SetYield installs the yield function (nil removes it).
+func SetYield(fn YieldFunc) {
+	if fn == nil {
+		yieldFn.Store(nil)
+		return
+	}
+	yieldFn.Store(&fn)
+}
+
+// SetFault installs the fault function (nil removes it).
+func SetFault(fn FaultFunc) {
+	if fn == nil {
+		faultFn.Store(nil)
+		return
+	}
+	faultFn.Store(&fn)
+}
+
+// Emit records an observation event.
+func Emit(kind string, args ...string) {
+	mu.Lock()
+	defer mu.Unlock()
+	if sink == nil {
+		return
+	}
+	seq++
+	cp := make([]string, len(args))
+	copy(cp, args)
+	sink(Event{Seq: seq, Kind: kind, Args: cp})
+}
+
+// Yield marks a point where the harness may park the calling goroutine.
+func Yield(point string, args ...string) {
+	if fn := yieldFn.Load(); fn != nil {
+		(*fn)(point, args)
+	}
+}
+
+// Fault returns an injected error for the named point, or nil.
+func Fault(point string, args ...string) error {
+	if fn := faultFn.Load(); fn != nil {
+		return (*fn)(point, args)
+	}
+	return nil
+}
